@@ -168,7 +168,7 @@ def explore(mod, ctx, cases, chunk=None, jobs=None, sample_every=None):
         return agg
     jobs = jobs or NCPU
     if chunk is None:
-        chunk = max(1, min(200, n // (jobs * 32) + 1))
+        chunk = getattr(mod, "CHUNK", None) or max(1, min(200, n // (jobs * 32) + 1))
     chunks = [(i, cases[i:i + chunk]) for i in range(0, n, chunk)]
     _G["mod"] = mod
     _G["ctx"] = ctx
